@@ -1,6 +1,7 @@
 package verifsim
 
 import (
+	"regexp"
 	"sync"
 
 	"github.com/mimiro-io/datahub/internal/verifhook"
@@ -116,4 +117,27 @@ func (h *simHooks) Knob(name string, def int) int {
 		return int(v)
 	}
 	return def
+}
+
+// Known-finding patterns ("oracle|signature" regular expressions) handed to the worker by the
+// driver. A violation matching one does not stop the scenario, so that it cannot mask others.
+var knownPatterns []*regexp.Regexp
+
+func SetKnown(pats []string) {
+	knownPatterns = nil
+	for _, p := range pats {
+		if re, err := regexp.Compile("^(?:" + p + ")$"); err == nil {
+			knownPatterns = append(knownPatterns, re)
+		}
+	}
+}
+
+func IsKnown(v *Violation) bool {
+	key := v.Oracle + "|" + v.Signature
+	for _, re := range knownPatterns {
+		if re.MatchString(key) {
+			return true
+		}
+	}
+	return false
 }
